@@ -319,6 +319,14 @@ def pureOp (w : List String) : Option String :=
   | ["T.vecexpect", r, t, obs] => do
       let st ← decState r t; let obs ← decRows obs
       pure (encInts (obs.map (T.vecExpect1 st)))
+  | ["T.project", r, t, obs] => do
+      let st ← decState r t; let obs ← decStrs obs
+      pure (encState (T.project st obs))
+  | ["T.randpauli", n, tape] => do
+      let n ← n.toNat?; let tape ← decBits tape
+      pure (match T.randomPauli n tape with
+        | some (rows, t) => "ok " ++ encStrs rows ++ " " ++ toString t.length
+        | none => "err tape-underflow")
   | ["reduce", p, tn, td] => do
       let p ← decPoly p; let tn ← tn.toNat?; let td ← td.toNat?
       pure (encPoly (reduce p tn td))
